@@ -30,6 +30,12 @@ for d in sorted(os.listdir(os.path.join(V, "seeded"))):
         return "undecided (exit %s, %d harnesses; %d s)" % (x["exit"], x["undecided"], x["wall_s"])
     ch = m.get("change", "")
     ch = re.sub(r"^-?\s*\**Change\**\s*(\([^)]*\))?:?\s*", "", ch)
+    if ch.startswith("#"):
+        # notes.md of rounds 4+: "# title ## Change <text>" -> "<title>: <text>"
+        m2 = re.match(r"#\s*(.*?)\s*##\s*(?:What the change is|The change|Change|What)\s*(.*)", ch)
+        if m2:
+            title = re.sub(r"^C\d\d\s*/?\s*(seed|change)?\s*[ABC]?\s*[-—:]*\s*", "", m2.group(1), flags=re.I)
+            ch = title + " — " + m2.group(2)
     rows.append("| %s | %s | %s | %s |" % (d, ch[:230].replace("|", "/") + ("…" if len(ch) > 230 else ""), cell("quick"), cell("thorough")))
 print("| seed | change (see seeded/<id>/) | quick tier | thorough tier |\n|---|---|---|---|")
 print("\n".join(rows))
